@@ -136,7 +136,11 @@ class SB:
 # ----------------------------------------------------------------------------- reals / ints
 class SR:
     __slots__ = ("t",)
-    __hash__ = None
+
+    def __hash__(self):
+        # numbers are hashable; a constant hash makes dict/set lookups fall back on ==, which is decided symbolically
+        # (forking in fork mode, SymbolicBranch otherwise) -- so memo tables keyed by numbers behave as they do on floats
+        return 0x5EED
 
     def __init__(self, t):
         self.t = t
